@@ -96,4 +96,19 @@ CHECKS = {
           "genuine datagrams, delivered and undelivered, is injected too. TLC judges every observation."),
     note=("Unforgeability of AES-GCM is assumed. The snapshot reads internal attributes through a tolerant projection (a missing attribute downgrades that comparison). Server-loop level injection "
           "(pool gate, other clients untouched) is C11's check; what the pre-key hello itself may do is C02's.")),
+ "C10": dict(
+    level="model_checking",
+    technique='TLC trace validation (specs/Trace_Server.tla, clauses L_x) of recorded executions of the real server loop in lock-step with real UdpClients: many-client interleavings, handler exceptions, shutdown at every tick of a range, forced token collisions',
+    text="Every handler event of the recorded runs is checked by TLC: connect exactly once per client object and only after a genuine challenge response from that address reached the server, messages only while connected and only payloads of the client that owns the address, disconnect exactly once, all events on one thread, events keep flowing after handler exceptions (2-3 % of all events raise), the connected pool equals the clients between connect and disconnect, simultaneously connected clients carry distinct tokens (the token generator's randomness is fed from a four-value space so that equal draws happen), shutdown disconnects everyone and is the last event.",
+    note='Trusted: TLC, the JSON bridge, the lock-step harness (harness/srvworld.py: real UdpServerThread.run behind TwistedServer.datagramReceived, real UdpClients with fake sockets, module attributes time/sleep/select/reactor rebound from outside, virtual clock). Real sockets, the Twisted reactor and TLS are replaced. Runs are seeded samples of the stated scenario families.'),
+ "C11": dict(
+    level="model_checking",
+    technique='TLC trace validation (specs/Trace_Server.tla, clauses A_x and L_x) of recorded executions of the real server loop under hostile floods (every length, every type, valid-CRC undecodable hellos, spoofed hello replays, block lists, MTUs) with canary clients',
+    text="Per event TLC checks: the loop thread is alive after every tick, a datagram from a block-listed IP leaves the queue untouched and is never answered, the bytes sent to an address that has not completed the handshake never exceed the bytes received from it, canary requests of established clients are echoed within the deadline throughout the attack, and the honest clients' lifecycle stays intact.",
+    note='Trusted: TLC, the JSON bridge, the lock-step harness (harness/srvworld.py: real UdpServerThread.run behind TwistedServer.datagramReceived, real UdpClients with fake sockets, module attributes time/sleep/select/reactor rebound from outside, virtual clock). Real sockets, the Twisted reactor and TLS are replaced. Runs are seeded samples of the stated scenario families.'),
+ "C12": dict(
+    level="model_checking",
+    technique='TLC trace validation (specs/Trace_Server.tla, clauses T_x) of recorded executions of real UdpClient + real server loop under virtual time over timer configurations, cut moments, unanswered connects and every setter order',
+    text='Per event TLC checks: idle links stay up (no silence disconnect before connection_timeout of silence, no DROPPED before 5 s without an accepted server datagram) and both sides emit within keep-alive + tick; after a cut the server drops the client within connection_timeout + 2 ticks and the client reports DROPPED within 5 s + 2 ticks; an unanswered connect ends DISCONNECTED at the configured time-out with the callback (if any) called once with False; setters never raise and the governed behaviour (client keep-alive cadence, message time-out of an unacknowledged send) uses the value set, for every order of the three setters relative to connect.',
+    note='Trusted: TLC, the JSON bridge, the lock-step harness (harness/srvworld.py: real UdpServerThread.run behind TwistedServer.datagramReceived, real UdpClients with fake sockets, module attributes time/sleep/select/reactor rebound from outside, virtual clock). Real sockets, the Twisted reactor and TLS are replaced. Runs are seeded samples of the stated scenario families.'),
 }
